@@ -6,7 +6,8 @@ CONSTANTS
     CapAtBlobSize = TRUE
     BgAllFiles = TRUE
     WaitHonoursTimeout = TRUE
+    ThresholdOnEffective = TRUE
     AllowReg = TRUE
 SPECIFICATION MonSpec
-INVARIANTS AfterPrefetchPrioritizedReadsAreLocal NoPrefetchLandmarkNoTraffic MonConfiguredSizeCapped PrefetchTrafficConfined AfterBackgroundFetchOfflineReadable WaiterClosedAtEnd MonWaitBounded MonCompletes
+INVARIANTS AfterPrefetchPrioritizedReadsAreLocal NoPrefetchLandmarkNoTraffic MonConfiguredSizeCapped PrefetchTrafficConfined AfterBackgroundFetchOfflineReadable WaiterClosedAtEnd MonWaitNilOnlyIfEndedOrAsync MonWaitBounded MonCompletes
 CHECK_DEADLOCK FALSE
